@@ -72,11 +72,16 @@ func c10Table() (*memsym.Table, []*memsym.Row) {
 
 var c10Lhs = []string{"sa", "na", "fa", "ba", "da", "ta", "ia", "m.k", "m.a.b", "zz", "ls", "anyOf(ta)", "allOf(ta)", "anyOf(ia)", "allOf(ia)", "count(ta)", "anyOf(sa)", "count(na)", "anyOf(zz)", "anyOf(ls)",
 	"count(from ls where rank > 1)", "count(from ls where name = \"n1\" sort by rank skip 1 limit 1)", "count(from ta where true)", "count(from zz where true)", "anyOf(m.k)"}
-var c10Scalars = []string{`"ab"`, `""`, "3", "-1", "2.5", "1e3", "9223372036854775807", "9223372036854775808", "datetime(2020-01-02T03:04:05Z)", "datetime(2020-01-02T03:04:05.123+05:45)", "true", "FALSE", "null", "NULL"}
-var c10Arrays = []string{`["a", "b"]`, `[1, 2]`, `[1.5, 2]`, `[1, 2.5, 3]`, `[datetime(2020-01-02T03:04:05Z)]`, `[datetime(2020-01-02T03:04:05Z), datetime(2021-01-02T03:04:05Z)]`, `["a"]`, `[1]`,
+var c10Scalars = []string{`"ab"`, `""`, "3", "-1", "2.5", "1e3", "9223372036854775807", "9223372036854775808", "datetime(2020-01-02T03:04:05Z)", "datetime(2020-01-02T03:04:05.123+05:45)", "true", "FALSE", "null", "NULL",
+	// literals the lexer accepts and the conversion refuses
+	"1e400", "datetime(2020-02-30T00:00:00Z)",
+	// escapes at the ends of a string literal
+	`"a\""`, `"\""`, `"\\"`, `"\"a"`}
+var c10Arrays = []string{`[1, 1e400]`, `[1e400, 1]`, `[1, 2, 1e400, 3]`, `[1, 9223372036854775808]`, `[datetime(2020-01-02T03:04:05Z), datetime(2020-02-30T00:00:00Z)]`, `[datetime(2020-02-30T00:00:00Z), datetime(2020-01-02T03:04:05Z)]`, `["a", "b\q"]`,
+	`["a", "b"]`, `[1, 2]`, `[1.5, 2]`, `[1, 2.5, 3]`, `[datetime(2020-01-02T03:04:05Z)]`, `[datetime(2020-01-02T03:04:05Z), datetime(2021-01-02T03:04:05Z)]`, `["a"]`, `[1]`,
 	// long lists (16 and more elements; values below, inside and above the list's range occur among the rows)
 	`[-9, -8, -7, -6, -5, -4, -3, -2, -1, 0, 1, 2, 3, 4, 5, 6, 7, 8, 9, 10]`, `["a", "b", "c", "d", "e", "f", "g", "h", "i", "j", "k", "l", "m", "n", "o", "p", "q"]`, `[0.5, 1.5, 2.5, 3.5, 4.5, 5.5, 6.5, 7.5, 8.5, 9.5, 10.5, 11.5, 12.5, 13.5, 14.5, 15.5]`, `[-11, -4, 3, 10, -6, 1, 8, -8, -1, 6, -10, -3, 4, 11, -5, 2, 9, -7, 0, 7, -9, -2, 5, -11, -4, 3, 10, -6, 1, 8, -8, -1, 6, -10, -3, 4, 11, -5, 2, 9]`}
-var c10Betweens = []string{"1 and 5", "1.5 and 5", "1 and 5.5", "datetime(2020-01-01T00:00:00Z) and datetime(2021-01-01T00:00:00Z)", "5 and 1", "-1 and -1"}
+var c10Betweens = []string{"1 and 5", "1.5 and 5", "1 and 5.5", "datetime(2020-01-01T00:00:00Z) and datetime(2021-01-01T00:00:00Z)", "5 and 1", "-1 and -1", "1 and 1e400", "datetime(2020-01-01T00:00:00Z) and datetime(2021-02-30T00:00:00Z)"}
 var c10Suffix = []string{"", " sort by sa", " sort by na desc, sa asc", " sort by ta", " sort by zz", " sort by m.k", " skip 1", " skip -1", " limit 1", " limit none", " limit -3", " skip 2 limit 2", " sort by da skip 0 limit 0", " skip 1.5", " limit 2.5", " skip 9223372036854775807 limit 9223372036854775807"}
 
 // c10Sentences enumerates grammar-derived sentences with arbitrary operand type mixes, at the top level and as the
